@@ -17,9 +17,9 @@ type Case struct {
 	X    *E     `json:"x"`
 	Pos  string `json:"pos"` // where project extend extend-unnamed summarize-agg summarize-key sort top take let join-on
 	Seed int64  `json:"seed"`
-	// NoNulls: only rows without NULLs are judged (join conditions with ==
-	// between $left and $right terms below other operators: the documented
-	// plain '=' differs from '==' exactly on NULL operands).
+	// NoNulls: rows on which an == between $left and $right terms has a NULL
+	// operand are not judged (join conditions with such an == below other
+	// operators: the documented plain '=' differs from '==' exactly there).
 	NoNulls bool `json:"nonulls,omitempty"`
 }
 
@@ -161,26 +161,9 @@ func Check(c *Case, r *mon.R) {
 	cols := gen.ColsOf(meaning, nil)
 	rows := gen.Rows(cols, 600, rng)
 	if c.NoNulls {
-		var nn []Row
-		for _, row := range rows {
-			ok := true
-			for _, v := range row {
-				if v.K == val.Null {
-					ok = false
-				}
-			}
-			if ok {
-				nn = append(nn, row)
-			}
-		}
-		rows = nn
-		if len(rows) == 0 {
-			rows = []Row{{}}
-		}
-	}
-	if c.NoNulls {
-		// a NULL operand can also be computed (1/0, an index out of range):
-		// rows on which an == between the two sides has one are not judged either
+		// the documented plain '=' differs from '==' exactly when an operand is
+		// NULL (a NULL column, or a computed one: 1/0, an index out of range):
+		// rows on which an == between the two sides has such an operand are not judged
 		var nn []Row
 		for _, row := range rows {
 			if !crossEqNull(meaning, row) {
